@@ -102,7 +102,9 @@ func scenarioC08(r *Run) {
 	}
 	sp := Spelling{T: t, Labels: true, Values: true, AlgLabel: true}
 	ent := NewEntropy(uint64(t.U32("entropy.seed")))
-	switch t.Pick([]int{3, 5, 3, 3, 1, 1, 1}, "c08.object") {
+	switch t.Pick([]int{3, 5, 3, 3, 1, 1, 1, 2}, "c08.object") {
+	case 7:
+		c08HeldMessage(r, t, ent)
 	case 6:
 		c08RelayEdit(r, t, ent)
 	case 5:
@@ -929,4 +931,122 @@ func c08RelayEdit(r *Run, t *tape.Tape, ent *Entropy) {
 	if err != nil {
 		r.Fail("encoder-output-refused/relay-edit", "a decoded Sign1 whose unprotected bucket was edited (%s) is encoded to bytes the decoder refuses: %v\n%s", edit, err, hexShort(b))
 	}
+}
+
+// c08HeldMessage: a message held in memory after decoding (60 % written by
+// the foreign peer, so its retained raw buckets carry wider-than-needed heads,
+// other key orders, h'a0') is encoded, used read-only (verified, its
+// countersignatures verified) and encoded again: the same in-memory message
+// always encodes to the same bytes, and what the encoder returned is accepted
+// by the decoder - before and after the message was used.
+func c08HeldMessage(r *Run, t *tape.Tape, ent *Entropy) {
+	w := r.GenWire(t, TrafficOpts{Spec: SpecOpts{MaxExtra: 4, MaxSigner: 3, Cheap: true}, CsigDepth: 2, Abbrev: true, ForeignPct: 60}, ent)
+	if w == nil {
+		r.Outcome("no-traffic")
+		return
+	}
+	spec := w.Spec
+	r.Op("ISSUE", "%s: %s", w.Desc, spec)
+	rc, err := r.Decode(spec.Kind, w.B)
+	if err != nil {
+		r.Outcome("held-not-accepted")
+		return
+	}
+	r.Outcome("held/" + spec.Kind.String())
+	if nonCanonicalDeep(w.Dec, w.B) != "" {
+		r.Probe("held-message-with-noncanonical-raw-buckets")
+	}
+	encNoLib := func() ([]byte, error) {
+		switch rc.Kind {
+		case refcose.KSignTagged:
+			return rc.MS.MarshalCBOR()
+		case refcose.KSign1Tagged:
+			return rc.M1.MarshalCBOR()
+		}
+		return (*cose.UntaggedSign1Message)(rc.M1).MarshalCBOR()
+	}
+	encode := func(stage string) ([]byte, bool) {
+		var b []byte
+		var e error
+		k := 1 + t.Choose(2, "c08.held.k")
+		for i := 0; i < k; i++ {
+			var bi []byte
+			r.Lib(func() { bi, e = encNoLib() })
+			if e != nil {
+				r.Check()
+				r.Fail("held-message-cannot-be-encoded/"+spec.Kind.String(), "%s: an accepted message, untouched, cannot be encoded: %v\ninput: %s", stage, e, hexShort(w.B))
+				return nil, false
+			}
+			kept := append([]byte(nil), bi...)
+			scribble(bi)
+			if i > 0 && !bytes.Equal(kept, b) {
+				r.Check()
+				r.Fail("encoding-not-deterministic/held-"+spec.Kind.String(), "%s: repetition %d of encoding the same held message differs\nfirst: %s\n this: %s", stage, i, hexShort(b), hexShort(kept))
+				return nil, false
+			}
+			b = kept
+		}
+		return b, true
+	}
+	closure := func(stage string, b []byte) bool {
+		_, derr := r.Decode(spec.Kind, b)
+		if derr != nil {
+			r.Check()
+			r.Fail("encoder-output-refused/held-"+spec.Kind.String(), "%s: the encoding of an accepted, untouched message is refused by the decoder: %v\ninput:  %s\noutput: %s", stage, derr, hexShort(w.B), hexShort(b))
+			return false
+		}
+		return true
+	}
+	first, ok := encode("before use")
+	if !ok || !closure("before use", first) {
+		return
+	}
+	vs := r.verifiersFor(spec, false)
+	rounds := 1 + t.Choose(3, "c08.held.rounds")
+	for i := 0; i < rounds; i++ {
+		what := ""
+		switch t.Choose(4, "c08.held.use") {
+		case 0, 1:
+			ext := spec.External
+			if w.Detached {
+				what = "Verify (payload detached)"
+			} else {
+				what = "Verify"
+			}
+			_ = r.VerifyLib(rc, ext, vs...)
+		case 2:
+			what = "countersignatures verified"
+			walkWireCsigs(w, rc, func(n *CsigNode, cs *cose.Countersignature, abbrev []byte, parent any) {
+				verifier := r.verifierFor(n.Key, false)
+				if n.Abbrev {
+					r.Lib(func() { _ = cose.VerifyCountersign0(verifier, parent, n.External, abbrev) })
+				} else if cs != nil {
+					r.Lib(func() { _ = cs.Verify(verifier, parent, n.External) })
+				}
+			})
+		default:
+			what = "countersigned (result discarded)"
+			k := pickCheapKey(t)
+			var parent any = rc.MS
+			if rc.M1 != nil {
+				parent = rc.M1
+			}
+			r.Lib(func() { _, _ = cose.Countersign0(ent, r.signerFor(k, false), parent, nil) })
+		}
+		r.Op("USE", "%s", what)
+		stage := "after " + what
+		again, ok := encode(stage)
+		if !ok {
+			return
+		}
+		r.Check()
+		if !bytes.Equal(again, first) {
+			r.Fail("held-message-encodes-differently-after-use/"+spec.Kind.String(), "%s: the same in-memory message, only read since, encodes to other bytes\nbefore: %s\n after: %s", stage, hexShort(first), hexShort(again))
+			return
+		}
+		if !closure(stage, again) {
+			return
+		}
+	}
+	r.Probe("held-message-encoded-before-and-after-use")
 }
